@@ -24,6 +24,7 @@ Abs(x) == IF x < 0 THEN 0 - x ELSE x
 JudgeNames4(r) ==
   LET acc == {<<a[1], <<a[2][1], a[2][2], a[2][3], a[2][4]>> >> : a \in SeqRange(r.accepted)} IN
   IF r.panics # 0 THEN "crash"
+  ELSE IF r.overflow # 0 THEN "accepts-undocumented"     \* far more accepted than documented: not even listed
   ELSE IF \E a \in acc : a[2] \notin AcceptedFor(a[1]) THEN "accepts-undocumented"
   ELSE IF \E n \in SpecNames4 : \E t \in AcceptedFor(n) : <<n, t>> \notin acc THEN "rejects-documented"
   ELSE IF Cardinality(acc) # Len(r.accepted) THEN "duplicates"
@@ -108,6 +109,11 @@ JudgeMapSweep(r) ==
        ELSE IF TableId(r, sim) # TableId(r, <<0, 5000>>) THEN "simulation-map"
        ELSE "fine"
 
+\* the maps are functions of their arguments: asking for run r2 right after run r1 (same board, same
+\* thread) gives the table of r2, whatever r1 was (added after seed C08-d: a memo keyed on the board only)
+JudgeMapHist(r) ==
+  IF \E i, j \in 1..Len(r.runs) : r.after[i][j] # r.plain[j] THEN "history-dependent" ELSE "fine"
+
 JudgeGeometry(r) ==
   IF \E w \in 0..255 : r.wire_to_col[w + 1] # R!Col(w) THEN "wire-to-column"
   ELSE IF \E c \in 0..31 : {r.col_to_wires[c + 1][k] : k \in 1..Len(r.col_to_wires[c + 1])} # R!Wires(c) \/ Len(r.col_to_wires[c + 1]) # 8 THEN "column-to-wires"
@@ -124,6 +130,7 @@ Judge(r) == IF r.verdict # "ok" THEN "crash"
                    [] r.fam = "devprobe" -> JudgeDevProbe(r)
                    [] r.fam = "macprobe" -> JudgeMacProbe(r)
                    [] r.fam = "mapsweep" -> JudgeMapSweep(r)
+                   [] r.fam = "maphist" -> JudgeMapHist(r)
                    [] r.fam = "geometry" -> JudgeGeometry(r)
 
 VARIABLES l, bad
